@@ -373,15 +373,18 @@ func c20Run(env *c20Env, c c20Case, mk func() vsChooser, maxSteps int) c20Case {
 	if cb.local+cb.remote > 1 {
 		o10["callbacks: more than one of OnLocalClose/OnRemoteClose was delivered"] = true
 	}
-	if closeIssued && finished && c.Cb0 {
+	if closeIssued && finished && !c.Setter {
 		// classify by what the trace shows
-		halfByGor, halfByCloser, casLost := false, false, false
+		halfByGor, halfByCloser, casLost, remoteHalf := false, false, false, false
 		for _, st := range steps {
 			if st.Ev != nil && st.Ev.Kind == vsKCAS && st.Ev.Reg == 0 {
-				if st.Ev.A == int64(streamOpened) && st.Ev.B == int64(streamHalfClosed) && st.Ev.C == 1 && st.Tid != 0 {
-					if st.Tid >= base {
+				if st.Ev.A == int64(streamOpened) && st.Ev.B == int64(streamHalfClosed) && st.Ev.C == 1 {
+					switch {
+					case st.Tid == 0:
+						remoteHalf = true // the peer's close notification won
+					case st.Tid >= base:
 						halfByGor = true
-					} else {
+					default:
 						halfByCloser = true
 					}
 				}
@@ -397,11 +400,14 @@ func c20Run(env *c20Env, c c20Case, mk func() vsChooser, maxSteps int) c20Case {
 		if inTable == 1 {
 			bad = append(bad, "still in the session table")
 		}
-		if cb.local+cb.remote != 1 {
+		if c.Cb0 && cb.local+cb.remote != 1 {
 			bad = append(bad, fmt.Sprintf("%d close callbacks", cb.local+cb.remote))
 		}
-		if !(cb.remote == 1 || nsent == 1) || (cb.local == 1 && nsent != 1) {
-			bad = append(bad, "peer not notified")
+		if !(remoteHalf || nsent == 1) || (remoteHalf && nsent != 0) || nsent > 1 {
+			bad = append(bad, fmt.Sprintf("peer notification: %d close elements sent, peer-closed-first=%v", nsent, remoteHalf))
+		}
+		if c.Cb0 && ((cb.local == 1) != (nsent == 1) || (cb.remote == 1) != remoteHalf) {
+			bad = append(bad, "callbacks do not match what happened")
 		}
 		if c.FlushErr != "ErrStreamClosed" {
 			bad = append(bad, "Flush after Close returned "+c.FlushErr)
